@@ -525,6 +525,15 @@ func opSync() error {
 						gj = []byte("null")
 					}
 					if string(ej) != string(gj) && !drifted {
+						// C07: same requests from the same store position (equal locators), but a different stop hash: the checkpoint
+						// cursor did not advance as the statement says (next checkpoint after a matching header, unbounded after the last)
+						if w := wantGH[p]; len(w) == len(got) {
+							for i := range got {
+								if got[i].T == "gh" && w[i].T == "gh" && fmt.Sprint(got[i].Loc) == fmt.Sprint(w[i].Loc) && got[i].Stop != w[i].Stop {
+									miss(k, "sync-contain", fmt.Sprintf("after %s(p%d,%v) the next request to node %d from locator %v stops at block %d (next checkpoint; -1 = unbounded)", st.Op, st.P, st.Ids, p, got[i].Loc, w[i].Stop), fmt.Sprintf("stop %d", got[i].Stop))
+								}
+							}
+						}
 						miss(k, "sync-drift", fmt.Sprintf("after %s(p%d,b%d,%s) node %d receives getheaders %s", st.Op, st.P, st.B, st.How, p, ej), string(gj))
 						drifted = true
 					}
